@@ -149,7 +149,7 @@ where
             if ctx.force_update_since_open.get() {
                 ctx.violate(&["C04"], "blob-order", "blob list order differs from blob id order after force_update_active_blob raced with the creation of an active blob", format!("phase={} observed order (closed..., active) {:?}; rank ties between blobs now resolve differently before and after a restart; {}", phase, order_ids, note));
             } else {
-                ctx.violate(&["C03", "C04", "C01"], "blob-order", "blob list order differs from blob id order although no force_update_active_blob was issued since the storage was opened", format!("phase={} observed order (closed..., active) {:?}; {}", phase, order_ids, note));
+                ctx.violate(&["C03", "C04", "C01", "C02"], "blob-order", "blob list order differs from blob id order although no force_update_active_blob was issued since the storage was opened", format!("phase={} observed order (closed..., active) {:?}; {}", phase, order_ids, note));
             }
         }
         world.set_query_phase(false);
